@@ -1412,6 +1412,29 @@ def c04_programs(rng, tier) -> List[Item]:
             meta.setdefault("sets", []).append({"op": len(P.ops) - 1, "key": key, "value": v, "base": sort_json(base)})
         items.append((P.to_json(), meta))
     items += namespace_items(rng, sizes(tier, 40, 300))
+    items += index_literal_items(rng, sizes(tier, 40, 160))
+    return items
+
+
+def index_literal_items(rng, n) -> List[Item]:
+    """Options whose key has segments that read as integer literals beyond plain digits (negative indices, a sign, an
+    underscore, white space, a leading zero), on lists, strings and sections, present and absent, with and without a
+    default: the value is what the independent lookup finds"""
+    items = []
+    keys = ["L.-1", "L.-2", "L.-3", "L.-4", "L.+1", "L.-0", "L.1_0", "L. 1", "L.01", "L.2.-1", "L.-1.0", "S.-1", "S.1", "X.-1", "X.0", "L.--1", "L.1_"]
+    dicts = [{"L": ["a", "b", ["c", "e"]], "S": {"-1": "neg", "1": "one"}, "X": "str"}, {"L": ["only"], "S": {}, "X": ""}, {"L": []}, {}]
+    for i in range(n):
+        P = Prog()
+        meta: Dict[str, Any] = {"c04": []}
+        for key in rng.sample(keys, 4):
+            d = [None, P.value("d"), P.value(None)][i % 3]
+            opt = P.option(key, dflt=d)
+            for o in dicts:
+                P.evaluate(opt, sort_json(o))
+                meta["c04"].append({"op": len(P.ops) - 1, "key": key, "dflt": "none" if d is None else "const", "domain": None, "opt": opt})
+                P.op("keys", opt, sort_json(o))
+                P.op("validate", opt, sort_json(o))
+        items.append((P.to_json(), meta))
     return items
 
 
@@ -1682,7 +1705,7 @@ def c04_full_oracle(prog, meta, impl, model):
 
 
 C04 = CoreProp("C04", ("eval", "mut", "reads"), c04_programs, c04_full_oracle, nontrivial=lambda p, i: True,
-               rule="key universe (flat, dotted, list-indexed, prefixes of one another) x value universe (every falsy "
+               layer0=('getDotted', 'setDotted', 'pyStr', 'pyEq'), rule="key universe (flat, dotted, list-indexed, prefixes of one another) x value universe (every falsy "
                     "value, containers, templated strings) x default forms x domains, each with the key present and "
                     "absent; independent dotted lookup as oracle; namespaces against fully-qualified Options")
 
@@ -2092,7 +2115,7 @@ def c08_oracle(prog, meta, impl, model):
 
 
 C08 = CoreProp("C08", ("eval", "validate", "keys", "mut", "reads"), c08_programs, c08_oracle, nontrivial=nontrivial_eval,
-               rule="wrapper nestings of depth 1-3 (forced / default) and datasets with options/default_options and "
+               layer0=('mix',), rule="wrapper nestings of depth 1-3 (forced / default) and datasets with options/default_options and "
                     "with_options/with_default_options derivatives, P, D, o overlapping inside the same sections; each compared "
                     "with the inner expression evaluated under an independently computed overlay; deep snapshots of every input; "
                     "directed families: derived-dataset chains, bodies editing arguments in place, section + inner key readers")
@@ -2224,8 +2247,8 @@ def index_segment_items(rng, n) -> List[Item]:
     """dotted keys whose segments read as integer literals beyond plain digits — negative indices (`L.-1`), a sign, an
     underscore, a leading zero; also below a section, where an integer segment never matches — in templates, templated
     option values and Option keys: whenever the substitution succeeds, keys() / explain() succeed and cover what it
-    read; a missing-key failure only when the independent lookup finds the key absent.  (Oracle only: these segments
-    are outside the key universe of the Lean model, whose `segIndex?` reads plain digits.)"""
+    read; a missing-key failure only when the independent lookup finds the key absent.  (The model's `parseIntLit` reads
+    ASCII integer literals the way `int()` does; non-ASCII decimal digits are outside it.)"""
     items = []
     for i in range(n):
         P = Prog()
@@ -2234,7 +2257,7 @@ def index_segment_items(rng, n) -> List[Item]:
         tn = P.template(t)
         on = P.option("W", dflt=P.template(t))
         kn = P.option(key, dflt=P.value("d") if i % 2 else None)
-        meta = {"c09": [], "t": t, "no_model": True}
+        meta = {"c09": [], "t": t}
         for o in [{"L": ["a", "b", ["c", "e"]], "A": 1, "S": {"-1": "neg"}}, {"L": ["only"], "A": 2}, {"L": [], "A": 3}, {"A": 4},
                   {"L": ["x", "y", ["z"]], "A": 5, "W": "{%s}" % key}]:
             for node in (tn, on, kn):
@@ -2404,7 +2427,7 @@ def c09_oracle(prog, meta, impl, model):
 C09 = CoreProp("C09", ("eval", "keys", "explain", "reads"), c09_programs, c09_oracle, nontrivial=lambda p, i: True,
                classify=lambda prog, meta, what: None if what.startswith("a Template fails with a missing-key error") else
                (param_in_option_value_program(prog) or brace_resubstitution_program(prog)),
-               rule="templates over the atom alphabet {literal, {KEY}, {DOTTED.KEY}, {:param:}, escaped braces} up to 4 atoms, "
+               layer0=('findKeys', 'resolve'), rule="templates over the atom alphabet {literal, {KEY}, {DOTTED.KEY}, {:param:}, escaped braces} up to 4 atoms, "
                     "parameters as constants/options/templates/datasets, options holding templated strings and containers of "
                     "templated strings to reference depth 3; independent substitution that records its reads; directed family: the whole "
                     "parameter-name alphabet and parameter look-alikes")
